@@ -12,7 +12,7 @@ EXPLANATION = (
     'in patterns are wildcards; (R4) in run_local, run_remote and run_bisync every call that can reach a file-system mutator or a mutating remote command is guarded '
     'by dry_run == false (read-only listings and `hostname` may precede the test); the plan printed is the plan executed; (R5) deletes are applied only from plan.delete. '
     'R3 also cuts glob_match at its loop heads and compares every transition (successor, new pi/ti/star/mark, returned value) with the classic single-star backtracking matcher for every valuation of the six branch atoms; a one-star fast path by starts_with/ends_with without a length test is reported. '
-    'R5 also: in run_bisync nothing that reaches reconcile() (scans, base, trust flag) is computed on one side only of a test of the dry-run option, so a dry run lists the plan the real run applies. Not decided: that the classic matcher equals the declarative wildcard semantics (textbook argument); an early return outside the modelled loops is NO-VERDICT.')
+    'R5 also: in run_bisync nothing that reaches reconcile() (scans, base, trust flag) is computed on one side only of a test of the dry-run option, so a dry run lists the plan the real run applies. R5: a plan post-processed (partition / retain) between build_plan and print_plan is not decided. Not decided: that the classic matcher equals the declarative wildcard semantics (textbook argument); an early return outside the modelled loops is NO-VERDICT.')
 ASSUMPTIONS = ['remote verbs classified read-only (cd, find, cat <file>, hostname) do not modify the remote tree']
 
 
